@@ -42,7 +42,7 @@ def parse(out):
     evs = []
     for l in out.splitlines():
         t = l.split()
-        if not t or t[0] not in ("C", "T", "B", "Q", "R", "M", "X", "g", "G", "E", "Z", "DL", "END", "ZB"):
+        if not t or t[0] not in ("C", "T", "B", "Q", "R", "M", "X", "g", "G", "E", "Z", "DL", "END", "ZB", "r"):
             continue
         try:
             clk = float(t[1])
@@ -258,9 +258,11 @@ def check(out, report, count):
             if t is not None and t.kind == "Q":
                 feats["suspend"] += 1
                 count("suspend.intervals_resumed")
-                if s.kind == "R" and float(s.f[4]) >= 0 and float(t.f[4]) >= 0:
+                # remaining work read by the suspender right after its suspend() returned, while the target was still suspended
+                rs = [e for e in evs if e.kind == "r" and s.kind == "R" and e.f[0] == s.f[0] and e.f[1] == s.f[1] and s.i < e.i < t.i]
+                if rs and float(rs[0].f[4]) >= 0 and float(t.f[4]) >= 0:
                     count("suspend.exec_remaining_compared")
-                    x, y = float(s.f[4]), float(t.f[4])
+                    x, y = float(rs[0].f[4]), float(t.f[4])
                     if abs(x - y) > 1e-6 * max(1.0, x):
                         report("C11:suspended:remaining-changed", "exec of actor %d had %r flops left when it was suspended at %g and %r when resumed at %g" % (p, x, s.clk, y, t.clk))
                         return feats
